@@ -253,7 +253,10 @@ def emit(run):
             cls = type(d).__name__
             if cls == "LocalDeme":
                 reqs = run_ctx["win"]
-                lines.append(f"tev local {did} {req_toks(reqs, len(reqs))} {inds_tok(gens[0] if gens else [])} {evals1 - run_ctx['evals0']}")
+                nfev = evals1 - run_ctx["evals0"]
+                # with an evaluation cutoff in the stack, requests refused by it never reach the recorder
+                nreq = max(len(reqs), nfev) if spec.get("cutoff") else len(reqs)
+                lines.append(f"tev local {did} {req_toks(reqs, nreq)} {inds_tok(gens[0] if gens else [])} {evals1 - run_ctx['evals0']}")
                 expect.append(None)
                 kinds.append("local")
             else:
